@@ -1748,11 +1748,16 @@ func (s *PrintCtx) appendBytes(z []byte) {
 // terminal or break the line.
 func (s *PrintCtx) appendTerminalSafe(val string) {
 	if !s.noColor {
-		safe := true
-		for i := 0; i < len(val); i++ {
-			if val[i] < 0x20 || val[i] == 0x7f {
-				safe = false
-				break
+		// control characters are C0, DEL and C1 (U+0080..U+009F; U+009B
+		// is CSI, the one-character form of ESC [); bytes that are not
+		// UTF-8 may be the 8-bit form of the same controls.
+		safe := utf8.ValidString(val)
+		if safe {
+			for _, r := range val {
+				if r < 0x20 || (r >= 0x7f && r <= 0x9f) {
+					safe = false
+					break
+				}
 			}
 		}
 		if safe {
